@@ -1,8 +1,16 @@
 package c10
 
 import (
+	"bytes"
 	"context"
+	"crypto/ecdsa"
+	"crypto/ed25519"
+	"crypto/elliptic"
+	"crypto/rsa"
+	"crypto/x509"
+	"encoding/pem"
 	"fmt"
+	"math/big"
 	"strconv"
 	"testing"
 	"time"
@@ -137,6 +145,7 @@ func TestLoginHostileKey(t *testing.T) {
 	valid := []byte(loginpeer.PoolKey(1024, 0).PubPEM)
 	consts := [][]byte{{}, []byte("\n"), []byte(" "), []byte("\r\n\r\n"), []byte("\x00"), []byte("-----BEGIN RSA PUBLIC KEY-----\n"), []byte("-----BEGIN RSA PUBLIC KEY-----\n-----END RSA PUBLIC KEY-----\n"),
 		[]byte("-----BEGIN RSA PUBLIC KEY-----\nAAAA\n-----END RSA PUBLIC KEY-----\n"), append(append([]byte{}, valid...), '\n'), append([]byte("\n"), valid...), valid[:len(valid)/2]}
+	consts = append(consts, wellFormedForeignKeys()...)
 	e := vh.NewEnum(t, "TestLoginHostileKeyConstants", runHostileLogin)
 	if !e.Skip() {
 		for _, k := range consts {
@@ -146,7 +155,10 @@ func TestLoginHostileKey(t *testing.T) {
 	}
 	gen := func(rt *rapid.T) hostileLoginCase {
 		var k []byte
-		switch rapid.IntRange(0, 3).Draw(rt, "keyclass") {
+		switch rapid.IntRange(0, 4).Draw(rt, "keyclass") {
+		case 4:
+			fk := wellFormedForeignKeys()
+			k = append([]byte{}, fk[rapid.IntRange(0, len(fk)-1).Draw(rt, "foreign")]...)
 		case 0:
 			k = rapid.SliceOfN(rapid.SampledFrom([]byte(" \n\r\t-ABEGINDRSPUCKY=/+0")), 0, 80).Draw(rt, "keychars")
 		case 1:
@@ -236,4 +248,35 @@ func TestLoginHostileCapabilities(t *testing.T) {
 		return c
 	}
 	vh.Check(t, "TestLoginHostileCapabilities", vh.N(400, 10000), gen, runHostileCaps)
+}
+
+// wellFormedForeignKeys: PEM blocks that are perfectly valid public keys - of other algorithms,
+// in other encodings, under other block types - but not what the negotiation prescribes (a
+// PKCS#1 RSA public key). Deterministic key material, so that cases replay.
+func wellFormedForeignKeys() [][]byte {
+	var out [][]byte
+	pemOf := func(typ string, der []byte) []byte { return pem.EncodeToMemory(&pem.Block{Type: typ, Bytes: der}) }
+	seed := bytes.Repeat([]byte{7}, 64)
+	edPriv := ed25519.NewKeyFromSeed(seed[:32])
+	if der, err := x509.MarshalPKIXPublicKey(edPriv.Public()); err == nil {
+		out = append(out, pemOf("PUBLIC KEY", der), pemOf("RSA PUBLIC KEY", der))
+	}
+	for _, curve := range []elliptic.Curve{elliptic.P256(), elliptic.P384()} {
+		if k, err := ecdsa.GenerateKey(curve, bytes.NewReader(bytes.Repeat(seed, 8))); err == nil {
+			if der, err := x509.MarshalPKIXPublicKey(&k.PublicKey); err == nil {
+				out = append(out, pemOf("PUBLIC KEY", der), pemOf("RSA PUBLIC KEY", der))
+			}
+		}
+	}
+	if priv, err := loginpeer.PoolKey(1024, 0).Private(); err == nil {
+		if der, err := x509.MarshalPKIXPublicKey(&priv.PublicKey); err == nil {
+			out = append(out, pemOf("PUBLIC KEY", der), pemOf("RSA PUBLIC KEY", der))
+		}
+		out = append(out, pemOf("PUBLIC KEY", x509.MarshalPKCS1PublicKey(&priv.PublicKey)), pemOf("CERTIFICATE", x509.MarshalPKCS1PublicKey(&priv.PublicKey)),
+			pemOf("RSA PRIVATE KEY", x509.MarshalPKCS1PrivateKey(priv)))
+		// an RSA key whose public exponent or modulus is degenerate
+		out = append(out, pemOf("RSA PUBLIC KEY", x509.MarshalPKCS1PublicKey(&rsa.PublicKey{N: big.NewInt(1), E: 3})),
+			pemOf("RSA PUBLIC KEY", x509.MarshalPKCS1PublicKey(&rsa.PublicKey{N: priv.N, E: 1})))
+	}
+	return out
 }
